@@ -19,6 +19,9 @@ type Clause struct {
 	Src   string
 	File  string
 	Line  int
+	// Assumed: an `assumes` clause - a postcondition that callers may use but that is not proved of the body
+	// (library behaviour the body relies on); listed in the evidence as an assumption, never counted as discharged.
+	Assumed bool
 }
 
 type LoopSpec struct {
@@ -152,7 +155,7 @@ func newSpecDB() *SpecDB {
 	return &SpecDB{Contracts: map[string]*Contract{}, Funcs: map[string]*SpecFunc{}, Consts: map[string]int64{}, Classes: map[string]*StrClass{}}
 }
 
-var reClauseHead = regexp.MustCompile(`^(requires|ensures|invariant)\s+((?:@[A-Z0-9,]+\s+)?)((?:[A-Za-z_][A-Za-z0-9_\-]*:\s+)?)(.*)$`)
+var reClauseHead = regexp.MustCompile(`^(requires|ensures|assumes|invariant)\s+((?:@[A-Z0-9,]+\s+)?)((?:[A-Za-z_][A-Za-z0-9_\-]*:\s+)?)(.*)$`)
 var reContractHead = regexp.MustCompile(`^(contract|stub)\s+(\S+)\s*\(([^)]*)\)\s*(?:\(([^)]*)\))?\s*$`)
 var reFuncHead = regexp.MustCompile(`^(rec func|func|ufunc)\s+([A-Za-z_][A-Za-z0-9_]*)\s*\(([^)]*)\)\s*([^=]*?)\s*(?:=\s*(.*))?$`)
 
@@ -249,7 +252,7 @@ func (db *SpecDB) loadSpecFile(path string, prefix string) error {
 		lines = append(lines, lineT{strings.TrimSpace(t), i + 1})
 	}
 	// join continuation lines: a line that does not start with a directive keyword continues the previous one
-	kw := regexp.MustCompile(`^(contract|stub|rec func|func|ufunc|ghost field|const|axiom|lemma|owner|callsite|strclass|prop|requires|ensures|invariant|modifies|fresh|loop|trusted|maypanic|pure|nooverflow|inline|thread|use|by induction|ghostset|also|split|before|onrecv|join|recv|backedge)\b`)
+	kw := regexp.MustCompile(`^(contract|stub|rec func|func|ufunc|ghost field|const|axiom|lemma|owner|callsite|strclass|prop|requires|ensures|assumes|invariant|modifies|fresh|loop|trusted|maypanic|pure|nooverflow|inline|thread|use|by induction|ghostset|also|split|before|onrecv|join|recv|backedge)\b`)
 	var joined []lineT
 	for _, l := range lines {
 		if kw.MatchString(l.text) || len(joined) == 0 {
@@ -400,12 +403,16 @@ func (db *SpecDB) loadSpecFile(path string, prefix string) error {
 			} else {
 				return fail(l, "prop outside contract")
 			}
-		case strings.HasPrefix(t, "requires ") || strings.HasPrefix(t, "ensures ") || strings.HasPrefix(t, "invariant "):
+		case strings.HasPrefix(t, "requires ") || strings.HasPrefix(t, "ensures ") || strings.HasPrefix(t, "assumes ") || strings.HasPrefix(t, "invariant "):
 			m := reClauseHead.FindStringSubmatch(t)
 			if m == nil {
 				return fail(l, "bad clause %q", t)
 			}
 			cl := &Clause{Kind: m[1], Src: m[4], File: path, Line: l.no}
+			if cl.Kind == "assumes" {
+				cl.Kind = "ensures"
+				cl.Assumed = true
+			}
 			if m[2] != "" {
 				cl.Props = strings.Split(strings.TrimPrefix(strings.TrimSpace(m[2]), "@"), ",")
 			}
